@@ -4,7 +4,8 @@
    * block / handle / affinity values mirror model.AllocationBlock (Allocations, Unallocated FIFO,
      Attributes, SequenceNumber, per-ordinal sequence numbers), model.IPAMHandle (block -> count) and
      model.BlockAffinity (state).
-   * every client operation (AutoAssign, AssignIP, ReleaseIPs on one block, ReleaseByHandle) is a
+   * every client operation (AutoAssign, AssignIP, ReleaseIPs on one block, ReleaseByHandle, ClaimAffinity and
+     ReleaseAffinity of one block) is a
      Cas.prog: a tree whose nodes are exactly the datastore accesses the Go code performs on IPAM
      keys (blocks, affinities, handles), in the same order, with the same reactions to not-found /
      already-exists / conflict answers, and the same bounded retry loops.
@@ -183,7 +184,7 @@ Definition blk_auto_assign (b : block) (num : nat) (h : N) (tag : N) (aff_check 
   end.
 
 Inductive err := ENone | ENotFound | EExists | EConflict | EOther
-               | EClaimConflict | EStale | ENoFree | EBlockLimit | EMaxRetries | EOutOfModel.
+               | EClaimConflict | EStale | ENoFree | EBlockLimit | EMaxRetries | EOutOfModel | ENotEmpty.
 
 Definition ordinal_of (b : block) (a : N) : nat := N.to_nat (a - bk_cidr b).
 
@@ -274,6 +275,11 @@ Definition blk_release_by_handle (b : block) (h : N) : block * nat :=
 Definition bump (b : block) : block :=
   {| bk_cidr := bk_cidr b; bk_aff := bk_aff b; bk_allocs := bk_allocs b; bk_unalloc := bk_unalloc b;
      bk_attrs := bk_attrs b; bk_seq := bk_seq b + 1; bk_seqs := bk_seqs b |}.
+
+(* releaseBlockAffinity on a non-empty block: drop the affinity, keep every allocation *)
+Definition clear_aff (b : block) : block :=
+  {| bk_cidr := bk_cidr b; bk_aff := None; bk_allocs := bk_allocs b; bk_unalloc := bk_unalloc b;
+     bk_attrs := bk_attrs b; bk_seq := bk_seq b; bk_seqs := bk_seqs b |}.
 
 (* ------------------------------------------------------------------ handle functions (ipam_handle.go) *)
 Fixpoint hinc (m : list (N * N)) (c : N) (n : N) : list (N * N) :=
@@ -668,7 +674,8 @@ Section Ops.
 
   Inductive result :=
   | ResIPs (ips : list N) (e : err)       (* AutoAssign: addresses in order; ReleaseIPs: not-allocated addresses, sorted *)
-  | ResErr (e : err).                     (* AssignIP, ReleaseByHandle *)
+  | ResErr (e : err)                      (* AssignIP, ReleaseByHandle, ReleaseAffinity *)
+  | ResClaim (claimed failed : bool) (e : err).   (* ClaimAffinity of one block *)
 
   (* ipamClient.autoAssign: outer loop over blocks *)
   Fixpoint aa_loop (fuel : nat) (ips : list N) (rem_aff : list N) (owned : nat) (num : nat) (h tag host : N)
@@ -868,12 +875,91 @@ Section Ops.
     | inl (m, _) => rbh_blocks (map fst (order_by hint m)) h
     end.
 
+  (* blockReaderWriter.releaseBlockAffinity *)
+  Definition release_block_affinity (host c : N) (require_empty : bool) : prog (res unit) :=
+    a <- get_aff host c ;;
+    match a with
+    | inr e => Ret (inr e)
+    | inl (_, affrev) =>
+      g <- get_block c ;;
+      match g with
+      | inr e => Ret (inr e)
+      | inl (b, brev) =>
+        if match bk_aff b with Some h' => negb (N.eqb h' host) | None => false end then
+          u_ <- delete_aff host c affrev ;; Ret (inr EClaimConflict)
+        else if require_empty && negb (blk_empty b) then Ret (inr ENotEmpty)
+        else
+          u <- update_aff host c APendingDeletion affrev ;;
+          match u with
+          | inr e => Ret (inr e)
+          | inl affrev' =>
+            let finish : prog (res unit) :=
+              d2 <- delete_aff host c affrev' ;;
+              match d2 with
+              | inl _ => Ret (inl tt)
+              | inr ENotFound => Ret (inl tt)
+              | inr e => Ret (inr e)
+              end in
+            if blk_empty b then
+              d <- delete_block c brev ;;
+              match d with
+              | inl _ => finish
+              | inr ENotFound => finish
+              | inr e => Ret (inr e)
+              end
+            else
+              w <- update_block c (clear_aff b) brev ;;
+              match w with
+              | inl _ => finish
+              | inr e => Ret (inr e)
+              end
+          end
+      end
+    end.
+
+  (* ipamClient.ReleaseAffinity for a CIDR that is exactly one block *)
+  Fixpoint release_aff_loop (fuel : nat) (host c : N) (must_be_empty : bool) : prog result :=
+    match fuel with
+    | O => Ret (ResErr ENone)
+    | S f =>
+      r <- release_block_affinity host c must_be_empty ;;
+      match r with
+      | inl _ => Ret (ResErr ENone)
+      | inr EClaimConflict => Ret (ResErr ENone)
+      | inr ENotFound => Ret (ResErr ENone)
+      | inr EConflict => release_aff_loop f host c must_be_empty
+      | inr e => Ret (ResErr (nz e))
+      end
+    end.
+
+  (* ipamClient.ClaimAffinity for a CIDR that is exactly one block *)
+  Fixpoint claim_aff_loop (fuel : nat) (host c : N) : prog result :=
+    match fuel with
+    | O => Ret (ResClaim false false ENone)
+    | S f =>
+      pa <- get_pending_aff host c ;;
+      match pa with
+      | inr EConflict => claim_aff_loop f host c
+      | inr e => Ret (ResClaim false false (nz e))
+      | inl (_, affrev) =>
+          cb <- claim_affine_block host c affrev ;;
+          match cb with
+          | inr EConflict => claim_aff_loop f host c
+          | inr EClaimConflict => Ret (ResClaim false true ENone)
+          | inr e => Ret (ResClaim false false (nz e))
+          | inl _ => Ret (ResClaim true false ENone)
+          end
+      end
+    end.
+
   (* ---------------------------------------------------------------- operations *)
   Inductive op :=
   | OpAutoAssign (h tag : N) (num : nat)
   | OpAssignIP (h tag : N) (a : N)
   | OpRelease (opts : list (N * option N)) (hint : list N)
-  | OpReleaseByHandle (h : N) (hint : list N).
+  | OpReleaseByHandle (h : N) (hint : list N)
+  | OpClaimAffinity (c : N)
+  | OpReleaseAffinity (c : N) (must_be_empty : bool).
 
   Definition compile (host : N) (o : op) : prog result :=
     match o with
@@ -881,6 +967,8 @@ Section Ops.
     | OpAssignIP h tag a => assign_ip host h tag a
     | OpRelease opts hint => release_ips opts hint
     | OpReleaseByHandle h hint => release_by_handle h hint
+    | OpClaimAffinity c => claim_aff_loop R host c
+    | OpReleaseAffinity c must => release_aff_loop R host c must
     end.
 End Ops.
 
